@@ -296,7 +296,7 @@ def _model_case(text, inp, ign, null, flt, order):
 def gen_model(tier, ti, ii):
     text = MODEL_TEXTS[ti]
     inp = INPUT_SHAPES[ii]
-    if tier == "thorough":
+    if tier == "thorough" and ti in (0, 1, 4):
         for ign in IGN_SHAPES:
             for null in NULL_SHAPES:
                 for flt in FILT_SHAPES:
@@ -338,6 +338,15 @@ WR_HEADERS = [["A", "B", "C"], ["_A", "B", "C"], ["1A", "B", "C"], ["TIME", "DV"
 
 
 WR_QUICK_SMALL = [0, 2, 3, 5]  # indices of the values used for the 2 x 2 frames in the quick tier
+WR_THOROUGH_6 = [0, 2, 3, 4, 5]  # ... for the 6-cell frames in the thorough tier
+
+
+def wr_alpha(tier, ncell):
+    if tier != "thorough" and ncell >= 4:
+        return WR_QUICK_SMALL
+    if tier == "thorough" and ncell >= 6:
+        return WR_THOROUGH_6
+    return list(range(len(WR_VALUES)))
 
 
 def wr_shapes(tier):
@@ -354,11 +363,9 @@ def wr_shapes(tier):
 def gen_wr(tier, nc, nr, first, kind):
     """all frames of the shape whose first cell is WR_VALUES[first]; kind: 'plain' | 'variants'"""
     ncell = nc * nr
-    alpha = range(len(WR_VALUES))
-    if tier != "thorough" and ncell >= 4:
-        alpha = WR_QUICK_SMALL
-        if first not in alpha:
-            return
+    alpha = wr_alpha(tier, ncell)
+    if first not in alpha:
+        return
     for rest in itertools.product(alpha, repeat=ncell - 1):
         cells = (first,) + rest
         if kind == "plain":
@@ -655,17 +662,13 @@ def check_wr(case, tmp):
 def shards(tier):
     out = []
     # heavy first
-    if tier == "thorough":
-        for (nc, nr) in reversed(wr_shapes(tier)):
-            for first in range(len(WR_VALUES)):
-                if nc * nr >= 6:
-                    for second in range(len(WR_VALUES)):
-                        out.append(("wr", nc, nr, first, "plain", second))
-                else:
-                    out.append(("wr", nc, nr, first, "plain", None))
-    else:
-        for (nc, nr) in reversed(wr_shapes(tier)):
-            for first in range(len(WR_VALUES)):
+    for (nc, nr) in reversed(wr_shapes(tier)):
+        alpha = wr_alpha(tier, nc * nr)
+        for first in alpha:
+            if nc * nr >= 6:
+                for second in alpha:
+                    out.append(("wr", nc, nr, first, "plain", second))
+            else:
                 out.append(("wr", nc, nr, first, "plain", None))
     for (nc, nr) in wr_shapes(tier):
         if nc * nr <= (3 if tier == "thorough" else 2):
@@ -685,6 +688,9 @@ def shards(tier):
             if tier != "thorough" and ti in (2, 3) and ii not in (0, 1, 8):
                 continue  # quick: the unterminated / CRLF texts only with three $INPUT shapes
             out.append(("model", ti, ii))
+    if tier == "thorough":
+        # heavy shards first
+        out.sort(key=lambda sh: 0 if sh[0] in ("model", "wr") else 1)
     return out
 
 
